@@ -242,12 +242,74 @@ fn strategy(tier: Tier) -> proptest::strategy::BoxedStrategy<Facts> {
     .boxed()
 }
 
+/// A ladder of `d` stacked two-parent diamonds below HP:0000001 (2^d upward routes from its bottom to the top) and a
+/// bypass of two links from the bottom to the top over a term with a larger id than every ladder term. Only the
+/// pairs (bottom, top), (bottom, bypass), (bypass, top) and a ladder term of every level against top and bottom are
+/// asked: the number of routes makes every query expensive.
+pub fn check_ladder(d: u32, stats: &mut Stats) -> CheckResult {
+    let mut f = Facts::default();
+    f.terms.push(TermFact { id: 1, name: "top".into(), obsolete: false, replacement: None });
+    let node = |level: u32, side: u32| 10 + level * 2 + side;
+    for level in 0..d {
+        for side in 0..2 {
+            f.terms.push(TermFact { id: node(level, side), name: format!("l{level}s{side}"), obsolete: false, replacement: None });
+            if level == 0 {
+                f.edges.push((node(level, side), 1));
+            } else {
+                f.edges.push((node(level, side), node(level - 1, 0)));
+                f.edges.push((node(level, side), node(level - 1, 1)));
+            }
+        }
+    }
+    let (bottom, bypass) = (5u32, 9000u32);
+    f.terms.push(TermFact { id: bottom, name: "bottom".into(), obsolete: false, replacement: None });
+    f.terms.push(TermFact { id: bypass, name: "bypass".into(), obsolete: false, replacement: None });
+    f.edges.push((bottom, node(d - 1, 0)));
+    f.edges.push((bottom, node(d - 1, 1)));
+    f.edges.push((bottom, bypass));
+    f.edges.push((bypass, 1));
+    let ont = crate::build::via_builder(&f, crate::build::Finish::Minimal).map_err(|e| Failure { signature: "construct/builder".into(), message: e })?;
+    let m = Model::new(&f);
+    let mut pairs = vec![(bottom, 1), (bottom, bypass), (bypass, 1), (1, bottom)];
+    for level in (0..d).step_by(3) {
+        pairs.push((node(level, 1), 1));
+        pairs.push((bottom, node(level, 0)));
+        pairs.push((node(level, 0), bypass));
+    }
+    for (a, b) in pairs {
+        stats.eval(1);
+        let (ta, tb) = (ont.hpo(a).unwrap(), ont.hpo(b).unwrap());
+        let (ua, ub) = (m.up_dist(a), m.up_dist(b));
+        let r = guarded(|| -> CheckResult {
+            let want = ua.get(&b).copied();
+            let got = ta.distance_to_ancestor(&tb);
+            ensure!(got == want, "distance_to_ancestor", "ladder of {d} diamonds: {a}.distance_to_ancestor({b}) = {got:?}, shortest parent chain has {want:?} links");
+            let plen = ta.path_to_ancestor(&tb).map(|p| p.len());
+            ensure!(plen == want, "path_to_ancestor/length", "ladder of {d} diamonds: {a}.path_to_ancestor({b}) has {plen:?} links, shortest chain has {want:?}");
+            let exp = ua.iter().filter_map(|(c, x)| ub.get(c).map(|y| x + y)).min();
+            let (d1, d2) = (ta.distance_to_term(&tb), tb.distance_to_term(&ta));
+            ensure!(d1 == exp && d2 == exp, "distance_to_term", "ladder of {d} diamonds: distance_to_term({a},{b}) = {d1:?} / {d2:?}, minimum over common ancestors is {exp:?}");
+            if a != b {
+                let p = ta.path_to_term(&tb).map(|p| p.len());
+                ensure!(p == exp, "path_to_term/length/ladder", "ladder of {d} diamonds: {a}.path_to_term({b}) has {p:?} steps, distance is {exp:?}");
+            }
+            Ok(())
+        });
+        match r {
+            Ok(r) => r?,
+            Err(p) => return fail("paths/panic", format!("ladder of {d} diamonds, pair ({a},{b}): {p}")),
+        }
+    }
+    stats.label("ladder>=16-diamonds");
+    Ok(())
+}
+
 impl Property for C11 {
     fn id(&self) -> &'static str {
         "C11"
     }
     fn rule(&self) -> String {
-        "Generated: acyclic graphs (Builder, or own v3 bytes with obsolete / replaced terms) weighted toward chains with shortcuts to a much higher ancestor, diamond ladders (ties), several roots and detached terms (<=16 terms quick / 22 thorough); ALL ordered pairs; one ontology in three additionally yields a sub-ontology (generated root and leaves), which is asked the same questions against the facts restricted to the retained terms. Oracle: upward BFS distances u(x,c) on the facts; distance_to_ancestor = u or None; path_to_ancestor is a chain of parent links of exactly that length ending in the ancestor; distance_to_term = min over common ancestors (terms included) of u(a,c)+u(b,c), symmetric, None iff no common ancestor; for a != b path_to_term exists iff the distance does, every step is a parent or child link, it ends in b and has exactly distance steps (validity predicate: ties admit several paths); Distance similarity = 1/(d+1) or 0. evaluations = ordered pairs. Non-trivial = graph with a pair where one term is an ancestor of the other but a strictly shorter route exists over a higher common ancestor, or a tie between two routes; distinct by canonical facts.".into()
+        "Generated: acyclic graphs (Builder, or own v3 bytes with obsolete / replaced terms) weighted toward chains with shortcuts to a much higher ancestor, diamond ladders (ties), several roots and detached terms (<=16 terms quick / 22 thorough); ALL ordered pairs; one ontology in three additionally yields a sub-ontology (generated root and leaves), which is asked the same questions against the facts restricted to the retained terms. Fixed shapes in their own processes: chains of 262-270 links, 65 700 terms (sampled pairs), a term with 300 direct parents, and a ladder of 18 stacked diamonds (2^18 upward routes) with a two-link bypass over a term with a larger id. Oracle: upward BFS distances u(x,c) on the facts; distance_to_ancestor = u or None; path_to_ancestor is a chain of parent links of exactly that length ending in the ancestor; distance_to_term = min over common ancestors (terms included) of u(a,c)+u(b,c), symmetric, None iff no common ancestor; for a != b path_to_term exists iff the distance does, every step is a parent or child link, it ends in b and has exactly distance steps (validity predicate: ties admit several paths); Distance similarity = 1/(d+1) or 0. evaluations = ordered pairs. Non-trivial = graph with a pair where one term is an ancestor of the other but a strictly shorter route exists over a higher common ancestor, or a tie between two routes; distinct by canonical facts.".into()
     }
     fn assumptions(&self) -> Vec<String> {
         vec!["is_a graph acyclic; path_to_term(a,a) (documented to return [a]) is outside the property and not checked".into()]
@@ -259,7 +321,7 @@ impl Property for C11 {
         }
     }
     fn required_labels(&self, _tier: Tier) -> Vec<&'static str> {
-        vec!["nontrivial", "obsolete-terms", "shorter-route-over-higher-ancestor", "tie", "no-common-ancestor", "diamond", "depth>255", "annotated-with-all-kinds", "ancestors>30", "bulk>65535-terms", "sub-ontology", "direct-parents>255"]
+        vec!["nontrivial", "obsolete-terms", "shorter-route-over-higher-ancestor", "tie", "no-common-ancestor", "diamond", "depth>255", "annotated-with-all-kinds", "ancestors>30", "bulk>65535-terms", "sub-ontology", "direct-parents>255", "ladder>=16-diamonds"]
     }
     fn run_generated(&self, tier: Tier, seed: u64, n: u64, stats: &mut Stats) -> Option<(Value, Failure)> {
         run_typed(strategy(tier), seed, n, stats, check)
@@ -285,6 +347,11 @@ impl Property for C11 {
             }
             return Ok(r);
         }
+        if let Some(b) = case.get("ladder") {
+            let d: u32 = serde_json::from_value(b.clone()).map_err(|e| e.to_string())?;
+            stats.cases += 1;
+            return Ok(check_ladder(d, stats));
+        }
         if let Some(b) = case.get("fanin") {
             // one term with more direct parents than an 8-bit counter holds
             let v: (u32, u32) = serde_json::from_value(b.clone()).map_err(|e| e.to_string())?;
@@ -299,7 +366,7 @@ impl Property for C11 {
     }
     fn isolated_plans(&self, tier: Tier, seed: u64) -> Vec<Value> {
         let _ = seed;
-        let mut out = vec![json!({"deep": (270u32, 7919u32)}), json!({"deep": (262u32, 104_729u32)}), json!({"bulk": (65_700u32, 7919u32)}), json!({"fanin": (300u32, 7919u32)})];
+        let mut out = vec![json!({"deep": (270u32, 7919u32)}), json!({"deep": (262u32, 104_729u32)}), json!({"bulk": (65_700u32, 7919u32)}), json!({"fanin": (300u32, 7919u32)}), json!({"ladder": 18u32})];
         if tier == Tier::Thorough {
             out.push(json!({"deep": (600u32, 1_299_709u32)}));
         }
